@@ -149,11 +149,13 @@ Kind(n, t, kd) ==
     [] kd = "dt"   -> Plain(n, IF t = 1 THEN 2 ELSE 1, 1, 1, 0)                      \* disagrees on degree
     [] kd = "dh"   -> LET mb == Plain(n, t, 1, 1, 0) IN [mb EXCEPT !.v.pgH = 1]      \* disagrees on H (and is invalid)
     [] kd = "dg"   -> LET mb == Plain(n, t, 1, 1, 0) IN [mb EXCEPT !.v.pgG = 1]      \* disagrees on G_1
+    [] kd = "vn"   -> LET mb == Plain(n, t, 1, 1, 0) IN [mb EXCEPT !.v.n = 2 * n]   \* only the verifier-side bit length is raised
+    [] kd = "vt"   -> LET mb == Plain(n, t, 1, 1, 0) IN [mb EXCEPT !.v.t = t + 1]   \* only the verifier-side degree is raised
     [] kd = "dh8"  -> LET mb == Plain(n, t, 8, 8, 0) IN [mb EXCEPT !.v.pgH = 1]      \* disagrees on H and is the largest member
     [] kd = "dg8"  -> LET mb == Plain(n, t, 8, 16, 0) IN [mb EXCEPT !.v.pgG = t]     \* disagrees on the last G_k, largest member
 ValidKinds == {"v1", "v1s", "v2", "v4c8"}
 BadKinds == {"xs", "xp", "xv", "xl", "xr", "xk"}
-DisKinds == {"dn", "dt", "dh", "dg", "dh8", "dg8"}
+DisKinds == {"dn", "dt", "dh", "dg", "dh8", "dg8", "vn", "vt"}
 Pattern(pt, x) == CASE pt = 1 -> "v1" [] pt = 2 -> (IF x % 2 = 1 THEN "v1s" ELSE "v2") [] pt = 3 -> (IF x % 3 = 0 THEN "v4c8" ELSE IF x % 3 = 1 THEN "v1s" ELSE "v1")
 FamBatch ==
   LET MaxK == 3 * MaxBatch + 1
